@@ -299,7 +299,49 @@ def b_sorted(ip, it, key=None, reverse=False):
     raise Unsupported('sorted over symbolic items')
 
 
+TRI = None
+
+
+def tri_kind():
+    """elements None / False / True as -1 / 0 / 1"""
+    global TRI
+    if TRI is None:
+        def wrap(ip, t):
+            t = z3.simplify(t)
+            if ip.ctx.branch(ops.sbool(t == -1)):
+                return None
+            return ops.sbool(t == 1)
+
+        def unwrap(ip, v):
+            if v is None:
+                return z3.IntVal(-1)
+            tr = ip.truth(v)
+            if isinstance(tr, bool):
+                return z3.IntVal(1 if tr else 0)
+            return z3.If(tr.t, z3.IntVal(1), z3.IntVal(0))
+        TRI = Kind('custom', None, (IntSort, wrap, unwrap))
+    return TRI
+
+
+def repeat_list(ip, item, n):
+    """[x] * n for a symbolic n"""
+    nt = ops.term(n, 'int')
+    if item is None:
+        s = SymSeq(z3.K(IntSort, z3.IntVal(-1)), z3.If(nt > 0, nt, z3.IntVal(0)), tri_kind())
+        if 'nonecount' in MEASURES:
+            s.meas['nonecount'] = s.n
+        return s
+    raise Unsupported('[x] * symbolic for x = %r' % (item,))
+
+
 def b_all(ip, it):
+    if isinstance(it, SymSeq):
+        j = z3.Int('j!all')
+        if it.elem.ty == 'custom' and it.elem is tri_kind():
+            return ops.sbool(z3.ForAll([j], z3.Implies(z3.And(j >= 0, j < it.n), z3.Select(it.arr, j) == 1)))
+        if it.elem.ty == 'custom' and getattr(it.elem, 'truthy', None) is not None:
+            return ops.sbool(z3.ForAll([j], z3.Implies(z3.And(j >= 0, j < it.n), it.elem.truthy(z3.Select(it.arr, j)))))
+        raise Unsupported('all() over a symbolic list of %r' % (it.elem,))
     r = True
     for x in ip.iter_concrete(it):
         r = ops.and_(r, ip.truth(x))
